@@ -28,6 +28,7 @@ type c17Case struct {
 	Mode       int    `json:"mode"`
 	LifetimeMS uint32 `json:"lifetime_ms"`
 	MarginMS   int    `json:"margin_after_expiry_ms"`
+	OldLast    bool   `json:"last_chunk_before_expiry_under_the_old_token,omitempty"`
 	Detail     string `json:"detail,omitempty"`
 }
 
@@ -121,6 +122,17 @@ func c17Client(c *fw.Ctx, cs c17Case) {
 		c.Inconclusive("first token not recorded")
 		return
 	}
+	if cs.OldLast {
+		// right after the renewal (at 0.75 L) the server answers one read under the old token, which is valid then;
+		// nothing under the new token follows before the expiry
+		time.Sleep(time.Until(at.Add(L*3/4 + L/8)))
+		mu.Lock()
+		mode = "old-token"
+		mu.Unlock()
+		if got, err := read(); err == nil && got == "SEALED-WITH-EXPIRED-TOKEN" {
+			c.Class("client:previous-token-accepted-while-valid", 1)
+		}
+	}
 	time.Sleep(time.Until(at.Add(L + L/4 + time.Duration(cs.MarginMS)*time.Millisecond)))
 	mu.Lock()
 	mode = "old-token"
@@ -182,14 +194,27 @@ func c17Server(c *fw.Ctx, cs c17Case) {
 		return
 	}
 	base := cs.Index * 1000
-	write(old, base+1, 7001) // still inside its lifetime: not asserted here (C16 does), recorded
-	if cur() == base+1 {
-		c.Class("server:previous-token-accepted-while-valid", 1)
-	}
-	write(nil, base+3, 7003)
-	if cur() != base+3 {
-		c.Inconclusive("control write under the new token had no effect")
-		return
+	if cs.OldLast {
+		// the last chunk the server sees before the expiry is one under the old token (still valid then)
+		write(nil, base+3, 7003)
+		if cur() != base+3 {
+			c.Inconclusive("control write under the new token had no effect")
+			return
+		}
+		write(old, base+1, 7001)
+		if cur() == base+1 {
+			c.Class("server:previous-token-accepted-while-valid", 1)
+		}
+	} else {
+		write(old, base+1, 7001) // still inside its lifetime: not asserted here (C16 does), recorded
+		if cur() == base+1 {
+			c.Class("server:previous-token-accepted-while-valid", 1)
+		}
+		write(nil, base+3, 7003)
+		if cur() != base+3 {
+			c.Inconclusive("control write under the new token had no effect")
+			return
+		}
 	}
 	time.Sleep(time.Until(old.IssuedAt.Add(L + L/4 + time.Duration(cs.MarginMS)*time.Millisecond)))
 	write(old, base+2, 7002)
@@ -208,14 +233,14 @@ func c17Run(c *fw.Ctx) error {
 		if int(i%int64(c.NBatch)) != c.Batch || i < c.Resume {
 			continue
 		}
-		cs := c17Case{Index: i, Side: []string{"client", "server"}[i%2], Mode: 2 + int(i/2)%2, LifetimeMS: []uint32{1000, 2000}[int(i/4)%2], MarginMS: []int{500, 2000}[int(i/8)%2]}
+		cs := c17Case{Index: i, Side: []string{"client", "server"}[i%2], Mode: 2 + int(i/2)%2, LifetimeMS: []uint32{1000, 2000}[int(i/4)%2], MarginMS: []int{500, 2000}[int(i/8)%2], OldLast: (int(i/2)+int(i/4))%2 == 1}
 		c.Journal(i, cs)
 		if cs.Side == "client" {
 			c17Client(c, cs)
 		} else {
 			c17Server(c, cs)
 		}
-		c.Nontrivial(fmt.Sprintf("%s/%d/%d/%d/%d", cs.Side, cs.Mode, cs.LifetimeMS, cs.MarginMS, i))
+		c.Nontrivial(fmt.Sprintf("%s/%d/%d/%d/%v/%d", cs.Side, cs.Mode, cs.LifetimeMS, cs.MarginMS, cs.OldLast, i))
 		c.Class("receiver:"+cs.Side, 1)
 		c.Sample(cs)
 		c.Done(i)
@@ -227,7 +252,7 @@ func init() {
 	fw.Register("C17", fw.Spec{
 		Plan: func(tier string) fw.Plan {
 			p := fw.Plan{Batches: 8, TimeoutS: 600, MinNontrivial: 6, Level: "exploration",
-				Rule:        "histories with renewals on Basic256Sha256 Sign / SignAndEncrypt channels, lifetimes 1 s and 2 s: (client) the scripted server keeps the keys of the first token and, 1.25 x lifetime + {0.5, 2} s after it issued that token (the client has renewed meanwhile), answers a pending Read with a chunk sealed with them, fresh sequence number, right request id, marked value; oracle: the call does not return the marked value; (server) the independent client renews, keeps renewing, and 1.25 x lifetime + margin after the first token was issued sends a Write sealed with its keys; oracle: the node value (in-process) does not change; a control read/write under the current token precedes every injection; distinct = injections",
+				Rule:        "histories with renewals on Basic256Sha256 Sign / SignAndEncrypt channels, lifetimes 1 s and 2 s: (client) the scripted server keeps the keys of the first token and, 1.25 x lifetime + {0.5, 2} s after it issued that token (the client has renewed meanwhile), answers a pending Read with a chunk sealed with them, fresh sequence number, right request id, marked value; oracle: the call does not return the marked value; (server) the independent client renews, keeps renewing, and 1.25 x lifetime + margin after the first token was issued sends a Write sealed with its keys; oracle: the node value (in-process) does not change; a control read/write under the current token precedes every injection; in half of the histories the last chunk the receiver gets before the expiry is one under the old token while it is still valid; distinct = injections",
 				Assumptions: []string{"the harness can only be late, which makes the token more expired; expiry is counted from the issue time stamped by the independent peer"}}
 			if tier == "thorough" {
 				p.Batches, p.TimeoutS, p.MinNontrivial = 16, 3000, 150
